@@ -61,7 +61,29 @@ def _announced(c, fn, tuple3):
     out = {}
     # the announced extents are the last two components of the returned shape (through any temporaries)
     env_l = {}
+    via_pattern = False
     for s in stmts:
+        # `let (he, wi) = match input { Shape::Triple(_, he, wi) => (he, wi), _ => panic }`: the extents by their pattern position
+        i0 = strip(s.get("init")) if s.get("k") == "let" and s.get("init") is not None else None
+        if i0 is not None and i0.get("k") == "match" and s["pat"].get("k") == "tuple":
+            for a in i0["arms"]:
+                vp, binds = e4.arm_variant(a)
+                body = strip(a["body"])
+                if vp == "tensor::Shape::Triple" and body is not None and body.get("k") == "tup" and len(body["xs"]) == len(s["pat"]["ps"]):
+                    pt = a["pat"]
+                    while pt.get("k") in ("ref", "deref"):
+                        pt = pt["p"]
+                    env_a = dict(env_l)
+                    for pos, q in enumerate(pt["ps"]):
+                        for (_, h) in pat_binds(q):
+                            env_a[h] = Rat.atom(("IC", "IH", "IW")[pos])
+                    for q, e_ in zip(s["pat"]["ps"], body["xs"]):
+                        if pat_binds(q):
+                            try:
+                                env_l[pat_binds(q)[0][1]] = e1.Norm(c, env_a).norm(e_)
+                                via_pattern = True
+                            except ValueError:
+                                pass
         if s.get("k") == "let" and s["pat"].get("k") == "bind" and s.get("init") is not None:
             try:
                 env_l[s["pat"]["hid"]] = e1.Norm(c, env_l).norm(s["init"])
@@ -71,6 +93,8 @@ def _announced(c, fn, tuple3):
     comps = []
     if tail is not None and tail.get("k") == "call" and tail["callee"].startswith("tensor::Shape::") and len(tail["args"]) >= 2:
         comps = list(zip(("height", "width"), tail["args"][-2:]))
+        if len(tail["args"]) == 3:
+            comps.append(("channels", tail["args"][0]))
     elif tail is not None and tail.get("k") == "tup" and len(tail["xs"]) >= 2:
         comps = list(zip(("height", "width"), tail["xs"][-2:]))
     for nm_, node_ in comps:
@@ -106,7 +130,7 @@ def _announced(c, fn, tuple3):
                             pt = pt["p"]
                         allb = [pat_binds(q)[0][1] if pat_binds(q) else None for q in pt["ps"]]
                         ok_tuple = hs == (allb if tuple3 else allb[1:])
-    return out, ok_tuple
+    return out, (ok_tuple or via_pattern)
 
 
 def padding_applied(ctx, rule):
@@ -214,6 +238,31 @@ def r1(ctx):
                 rf = dict((a_, e_) for a_, e_ in rng["fs"])
                 sh = [x for x in walk(mp["args"][0]) if x.get("k") == "call" and x["callee"] == "tensor::Shape::Triple"]
                 okk = pretty(strip(rf["end"])) == "filters" and sh and [pretty(strip(z)) for z in sh[0]["args"]] == ["ic", "kernel.0", "kernel.1"]
+        if not okk:
+            # same fact on the E6 summary: the `kernels` field is a sequence over 0..filters of Tensor::random(Shape::Triple(ic, k.0, k.1), ..),
+            # with ic the channel count of the (possibly reinterpreted) input shape - built by map/collect or by a push loop
+            from .. import e6
+            E_ = e6.Exec(c, cr)
+            okE = None
+            for p_ in E_.run_fn():
+                if p_.exit is not None and p_.exit[0] != "return":
+                    continue
+                val_ = p_.val if p_.exit is None else p_.exit[1]
+                kv = dict(val_[2]).get("kernels") if isinstance(val_, tuple) and val_ and val_[0] == "struct" else None
+                es = e6.elementwise_sequence(E_, kv) if kv is not None else None
+                good = False
+                if es is not None and e6.range_of(es[0]) == (("lit", "0"), ("p", "filters")):
+                    r_ = e6.is_call(es[1], "random")
+                    sh_ = r_[0] if r_ else None
+                    if isinstance(sh_, tuple) and sh_ and sh_[0] in ("var", "call") and sh_[1].endswith("Shape::Triple") and len(sh_[2]) == 3:
+                        a0, a1, a2 = sh_[2]
+                        kp = ("p", "kernel")
+                        # ic: the first component of the Triple the input was matched as (or 1 for a reinterpreted flat input)
+                        ic_ok = a0 == ("lit", "1") or (isinstance(a0, tuple) and a0 and a0[0] == "payload" and a0[2] == "tensor::Shape::Triple" and a0[3] == 0) \
+                            or (isinstance(a0, tuple) and a0 and a0[0] == "proj")
+                        good = ic_ok and e6.strip_upd(a1) == e6.mk_proj(kp, 0) and e6.strip_upd(a2) == e6.mk_proj(kp, 1)
+                okE = good if okE is None else (okE and good)
+            okk = bool(okE)
         ctx.check("R08.1", lname + ":kernels-created-as-filters-x-(ic,k0,k1)", okk, "kernel-construction", c.loc(cr), "kernels = filters x Triple(ic, kernel.0, kernel.1)")
         same = all(pretty(strip(fs[f])) == f for f in ("stride", "padding") if f in fs) and ("dilation" not in fs or pretty(strip(fs["dilation"])) == "dilation")
         ctx.check("R08.1", lname + ":stores-announced-geometry", same and "stride" in fs, "geometry-fields", c.loc(cr), "stride/padding/dilation fields = the parameters used for the announcement")
@@ -264,7 +313,7 @@ def r1(ctx):
     ya = [v for h, v in mex.allocs.items() if mex.names[h] == "y"]
     ctx.check("R08.1", "Maxpool:buffer-from-outputs", bool(ya) and [str(z) for z in ya[0]] == ["self.outputs.0", "self.outputs.1", "self.outputs.2"], "maxpool-buffer:" + str(ya), c.loc(mff),
               "y allocated from self.outputs")
-    ctx.check("R08.1", "Maxpool:channels", "input.0" in pretty(top_stmts_of(mfn["body"])[-1]), "maxpool-channels", c.loc(mfn), "channels preserved")
+    ctx.check("R08.1", "Maxpool:channels", ann.get("channels") == Rat.atom("IC"), "maxpool-channels:" + str(ann.get("channels")), c.loc(mfn), "channels preserved")
 
 
 def r2(ctx):
